@@ -4,6 +4,7 @@ import (
 	"fmt"
 	"github.com/freeconf/yang/meta"
 	"github.com/freeconf/yang/node"
+	"github.com/freeconf/yang/nodeutil"
 	"github.com/freeconf/yang/parser"
 	"math"
 	"math/big"
@@ -137,7 +138,53 @@ type c10case struct {
 	class string
 }
 
+// the text of an XML element converted to a leaf value: for a string (and a union, which may hold one) the text is
+// the value; for every other type surrounding white space is not part of it.  A leafref is its target's type.
+const c10xmlYang = `module x { namespace "urn:x"; prefix x; revision 2020-01-01;
+  leaf s { type string; } leaf-list sl { type string; } leaf i { type int32; } leaf-list il { type int32; } leaf b { type boolean; }
+  leaf e { type enumeration { enum one; enum two; } } leaf u { type union { type int32; type string; } } leaf d { type decimal64 { fraction-digits 2; } }
+  leaf rs { type leafref { path "/s"; } } leaf-list rsl { type leafref { path "/sl"; } } leaf-list rs1 { type leafref { path "/s"; } }
+  leaf ri { type leafref { path "/i"; } } leaf-list ril { type leafref { path "/il"; } } leaf re { type leafref { path "/e"; } } leaf-list ru { type leafref { path "/u"; } }
+}`
+
+func c10xmlText(c *core.Ctx) {
+	m, err := parser.LoadModuleFromString(nil, c10xmlYang)
+	if err != nil {
+		c.Violation(core.Replay{Kind: "harness", Summary: "c10xml module: " + err.Error(), NoInputFound: true})
+		return
+	}
+	cases := []struct{ leaf, text, want string }{
+		{"s", " n ", `" n "`}, {"s", "\tn\n", `"\tn\n"`}, {"sl", " n ", `[" n "]`}, {"i", " 5 ", `5`}, {"il", "\n7 ", `[7]`}, {"b", " true ", `true`}, {"e", " two\n", `"two"`},
+		{"u", " n ", `" n "`}, {"d", " 1.5 ", `1.5`}, {"rs", " n ", `" n "`}, {"rsl", " n ", `[" n "]`}, {"rs1", "  n", `["  n"]`}, {"ri", " 5 ", `5`}, {"ril", " 5\n", `[5]`},
+		{"re", " one ", `"one"`}, {"ru", " n ", `[" n "]`},
+	}
+	for _, tc := range cases {
+		doc := fmt.Sprintf(`<x xmlns="urn:x"><%s>%s</%s></x>`, tc.leaf, tc.text, tc.leaf)
+		var got string
+		e := safeDo(func() error {
+			src, err := nodeutil.ReadXMLDoc(strings.NewReader(doc))
+			if err != nil {
+				return err
+			}
+			got, err = nodeutil.WriteJSON(node.NewBrowser(m, src).Root())
+			return err
+		})
+		if e != nil {
+			got = "error " + short(e.Error())
+		}
+		want := fmt.Sprintf(`{"%s":%s}`, tc.leaf, tc.want)
+		c.Evaluations++
+		c.Count("xml_text", tc.leaf)
+		c.Distinct("xmltext " + tc.leaf + tc.text)
+		if got != want {
+			c.Violation(core.Replay{Kind: "property-failure", Class: "xml-text-" + tc.leaf, Summary: fmt.Sprintf("XML text %q of leaf %s reads as %s, want %s", tc.text, tc.leaf, got, want),
+				Input: map[string]interface{}{"yang": c10xmlYang, "document": doc}, Impl: got, Spec: want})
+		}
+	}
+}
+
 func C10(c *core.Ctx) {
+	c10xmlText(c)
 	c.Rule = "complete boundary matrix: 8 integer targets × (10 Go integer kinds × boundary values of the kind ∪ float64/float32 boundary set ∪ string boundary set) + decimal64/bool/string targets + list forms + ConvOneOf; thorough adds random values and exhaustive 8/16-bit sources. non-trivial = source denotes a number at or beyond a range boundary of source or target kind; distinct by (target, kind, value)"
 	c.Assumptions = append(c.Assumptions,
 		"strconv.ParseInt/ParseUint base 10 = the model's decimal parser (exercised on the string boundary set)",
